@@ -3,6 +3,7 @@ import DdoModel.Engines.Fringe
 import DdoModel.Engines.Mdd
 import DdoModel.Engines.Seq
 import DdoModel.Engines.Par
+import DdoModel.Engines.Ex
 /-! Line-protocol driver.  stdin: pairs of lines
       `C <engine> <id> <case tokens…>`
       `I <id> <implementation output tokens…>`
@@ -20,6 +21,8 @@ def dispatch (engine : String) (c i : List String) : Option Res :=
   | "seq" => seqEngine c i
   | "seqcut" => seqcutEngine c i
   | "par" => parEngine c i
+  | "parstress" => parstressEngine c i
+  | "ex" => exEngine c i
   | _ => none
 
 partial def loop (h : IO.FS.Stream) (out : IO.FS.Stream) : IO Unit := do
